@@ -506,7 +506,7 @@ impl Attribute for XmlAttribute {
                 .as_ref()
                 .ok_or(error::Error::IsolatedNode)?
                 .borrow()
-                .find_nameapce_uri(prefix)
+                .find_nameapce_uri(Some(prefix))
         } else {
             Ok(None)
         }
@@ -2201,8 +2201,7 @@ impl HasQName for XmlElement {
 
 impl Element for XmlElement {
     fn namespace_name(&self) -> error::Result<Option<NamespaceUri>> {
-        let prefix = self.prefix().unwrap_or("xmlns");
-        self.find_nameapce_uri(prefix)
+        self.find_nameapce_uri(self.prefix())
     }
 
     fn children(&self) -> OrderedList<Rc<XmlItem>> {
@@ -2501,15 +2500,11 @@ impl XmlElement {
         defs
     }
 
-    fn find_nameapce_uri(&self, prefix: &str) -> error::Result<Option<NamespaceUri>> {
-        for namespace in self.namespace_attributes().iter() {
-            if prefix == namespace.borrow().local_name() {
-                return Ok(Some(NamespaceUri::try_from(&namespace)?));
-            }
-        }
-
+    /// The namespace name bound to `prefix` (`None`: the default namespace) for this element;
+    /// its own declarations shadow inherited ones and an empty declaration leaves no binding.
+    fn find_nameapce_uri(&self, prefix: Option<&str>) -> error::Result<Option<NamespaceUri>> {
         for namespace in self.in_scope_namespace()?.iter() {
-            if prefix == namespace.borrow().prefix().unwrap_or_default() {
+            if prefix == namespace.borrow().prefix() {
                 return Ok(Some(NamespaceUri::from(&namespace)));
             }
         }
